@@ -25,6 +25,7 @@ type queryPlan struct {
 	rels  []ecs.Relation
 	exp   map[ecs.Entity]bool
 	label int
+	dead  []ecs.Relation // the same query with a removed entity as target (nil: not applicable)
 }
 
 // queryResult is what a task observed for one query.
@@ -46,13 +47,14 @@ type write struct {
 }
 
 type task struct {
-	extra    []sim.Querier // further open queries (step "burst")
-	rejected int           // attempts rejected because 64 queries were open
-	id       int
-	script   []sim.ParStep
-	plans    []queryPlan // one per "query" step, in order
-	results  []queryResult
-	panicV   string
+	extra     []sim.Querier // further open queries (step "burst")
+	rejected  int           // attempts rejected because 64 queries were open
+	deadTried int           // rejected queries with a removed entity as target (step "deadquery")
+	id        int
+	script    []sim.ParStep
+	plans     []queryPlan // one per "query" step, in order
+	results   []queryResult
+	panicV    string
 }
 
 // RoundStats are reach measures of a round.
@@ -61,6 +63,7 @@ type RoundStats struct {
 	SharedSwitch                              int // preemptions inside the lock-free hint refresh of a shared filter
 	Tasks                                     int
 	Rejected                                  int // queries rejected because 64 were open
+	DeadTarget                                int // queries tried with a removed entity as relation target
 	Queries                                   int
 	SharedFirstUse                            int
 }
@@ -130,7 +133,7 @@ func (se *Session) RunRound(r *sim.ParRound, raceLog string) []int16 {
 			for _, h := range exp {
 				m[h] = true
 			}
-			t.plans = append(t.plans, queryPlan{pf: pf, rels: rels, exp: m, label: label})
+			t.plans = append(t.plans, queryPlan{pf: pf, rels: rels, exp: m, label: label, dead: s.ParDeadQuery(pf, i+len(t.plans))})
 			if !se.used[fidx] {
 				se.used[fidx] = true
 				if se.PFs[fidx].Owner < 0 {
@@ -174,6 +177,7 @@ func (se *Session) RunRound(r *sim.ParRound, raceLog string) []int16 {
 	se.Stats.Tasks += n
 	for _, t := range tasks {
 		se.Stats.Rejected += t.rejected
+		se.Stats.DeadTarget += t.deadTried
 	}
 	if se.Sched != nil {
 		h := uint64(1469598103934665603)
@@ -336,6 +340,19 @@ func (t *task) run() {
 			}
 		case "gc":
 			runtime.GC()
+		case "deadquery":
+			// A query whose relation argument names a removed entity is rejected; that must not
+			// disturb the queries of the other goroutines nor leave a lock bit behind (checked
+			// after the join: world unlocked, nobody refused below the limit).
+			if pl == nil || pl.dead == nil {
+				continue
+			}
+			t.deadTried++
+			func() {
+				defer func() { _ = recover() }()
+				qq := pl.pf.F.Query(pl.dead)
+				qq.Close()
+			}()
 		case "burst":
 			if pl == nil {
 				continue
